@@ -128,11 +128,49 @@ def run(ctx):
         ctx.add('N2.table-init', path, loc(n), ok, 'the ID table must start as (0, empty set)')
 
     # ---- N5 who may touch
+    # The counter (component 0 of the locked table) is stored to by the allocator only, where N2/N4/N8 decide what is stored.  A
+    # store is recognised through whatever names the place: `guard.0`, `(*guard).0`, a `&mut` obtained by destructuring or
+    # re-borrowing the guard.  Any other store must be shown to leave the counter as it is: in the driver loop it is judged on the
+    # enumerated paths of its arm (the value stored is the counter's own current value, read under the same guard, nothing stored
+    # to it in between); everywhere else, and when the paths do not show it, it is a violation.  Handing a `&mut` of the counter
+    # to another function is a store this analysis cannot follow.
+    import driver as drv
+    arm_node_role = {}
+    for role, a in C.arms.items():
+        if isinstance(a, dict):
+            for x, _ in walk(a['body']):
+                arm_node_role[id(x)] = role
+    for path, h in f.hir.items():
+        if not any(anchors.is_idguard(x.get('ty')) for x, _ in walk(h['body'])):
+            continue        # the counter is reachable through the guard only (N5.guard-escapes: the guard is never handed on)
+        B = C.alloc if path == C.alloc_path else C.loop if path == C.loop_path else hirq.Body(f, h)
+        for n, c in walk(h['body']):
+            if n['k'] in ('Assign', 'AssignOp') and C.is_counter_place(n['l'], B) and path != C.alloc_path:
+                role = arm_node_role.get(id(n)) if path == C.loop_path else None
+                if role is None:
+                    ctx.fail('N5.counter-write', path, loc(n), 'the ID counter is written outside the allocator')
+                    continue
+                n_ev, bad = 0, None
+                for o in drv.arm_paths(C, role)[0]:
+                    sts = sem.stores(o)
+                    for i, place, val, node in sts:
+                        if node is not n:
+                            continue
+                        n_ev += 1
+                        earlier = [1 for j, p2, _v, _n in sts if j < i and sem.strip_site(p2) == sem.strip_site(place)]
+                        if val != place or earlier:
+                            bad = val
+                ctx.add('N5.counter-write', path, loc(n), n_ev > 0 and bad is None,
+                        'the ID counter is written outside the allocator%s: numbering no longer only advances within 1..2^31-1 (an ID can leave the range, or one still in use or just released can be handed out again)'
+                        % ('' if bad is None else ', set to ' + absx.fmt(bad)[:70]))
+            if n['k'] in ('Call', 'MethodCall') and path != C.alloc_path:
+                cands = list(n['args']) + ([n['recv']] if n['k'] == 'MethodCall' else [])
+                for a in cands:
+                    if ((a.get('adj_ty') or a.get('ty') or '').startswith('&mut') or (a.get('ty') or '').startswith('&mut')) and C.is_counter_place(a, B):
+                        ctx.fail('N5.counter-write', path + '|escapes', loc(n), 'a mutable reference to the ID counter is handed to `%s` outside the allocator' % (callee_of(n) or '?').rsplit('::', 1)[-1])
     for path, h in f.hir.items():
         for n, c in walk(h['body']):
             if n['k'] == 'Assign' or n['k'] == 'AssignOp':
-                if C.is_counter_place(n['l']) and path != C.alloc_path:
-                    ctx.fail('N5.counter-write', path, loc(n), 'the ID counter is written outside the allocator')
                 l = anchors.peel(n['l'])
                 if anchors.is_idguard(l.get('ty')) or C.is_idset_place(n['l']):
                     ctx.fail('N5.table-overwrite', path, loc(n), 'the ID table / in-use set is overwritten wholesale')
